@@ -25,7 +25,7 @@ func init() {
 				"called from lexText, lexLeftDelim, lexRightDelim and lexComment; in the delimiter functions only under the trim-marker fact, in lexText only for the trimLength bytes computed under the " +
 				"left-trim-marker test after the pending text was emitted; the parser drops an itemText token without a node only in the header loop of parseTemplate under TrimSpace(val) == \"\". " +
 				"(C03.space) the trim predicate isSpace compares with exactly {space, tab, CR, LF} and both trim-length helpers use it. (C03.delims) the lexer reads delimiters only from its " +
-				"configured fields; the default* constants are referenced only by the lexer constructor. (C03.next) lexText continues at the nearer of the next action candidate and the next comment candidate: the selection code, which touches the two positions by comparisons only, is executed on one representative of every ordering of absent/present positions. (C03.drop, continued) white-space-only text that parseTemplate consumes while looking for extends/import clauses is saved and built into text nodes again before the body is parsed, unless such a clause was seen. (C03.delims setters, continued) a setter may store through a helper that receives a pointer to the lexer field and a copy of the parameter; what is known about a parameter being empty is kept per parameter.",
+				"configured fields; the default* constants are referenced only by the lexer constructor. (C03.next) lexText continues at the nearer of the next action candidate and the next comment candidate: the selection code, which touches the two positions by comparisons only, is executed on one representative of every ordering of absent/present positions. (C03.drop, continued) white-space-only text that parseTemplate consumes while looking for extends/import clauses is saved and built into text nodes again before the body is parsed, unless such a clause was seen. (C03.delims setters, continued) a setter may store through a helper that receives a pointer to the lexer field and a copy of the parameter; what is known about a parameter being empty is kept per parameter. (C03.space, continued) membership in the trim set is spelled out by comparisons: a call that decides it (unicode.IsSpace, a table) is reported.",
 			NotDecided:  "the index arithmetic of lexText's search for the next delimiter/comment start; ambiguity between user-chosen delimiters; that exactly the adjacent run is trimmed (the value of trimLength).",
 			Assumptions: []string{"strings.TrimLeftFunc/TrimRightFunc/HasPrefix behave as documented"},
 			Trusted:     commonTrusted,
@@ -236,8 +236,13 @@ func runC03(c *an.Ctx) {
 	if em := c.Fn("C03.identity", "(*lexer).emit"); em != nil {
 		ok := false
 		an.InspectOwn(em, func(n ast.Node) bool {
-			if cl, isCl := n.(*ast.CompositeLit); isCl && an.TypeName(info.Types[cl].Type) == "jet.item" && len(cl.Elts) == 3 {
-				if an.Norm(em, cl.Elts[1]) == "$r.start" && an.Norm(em, cl.Elts[2]) == "$r.input[$r.start:$r.pos]" && an.Norm(em, cl.Elts[0]) == "$p0" {
+			if cl, isCl := n.(*ast.CompositeLit); isCl && an.TypeName(info.Types[cl].Type) == "jet.item" {
+				// (positional or keyed: the members by name)
+				got := map[string]string{}
+				for _, m := range litMembers(info, cl) {
+					got[m.name] = an.Norm(em, m.val)
+				}
+				if got["pos"] == "$r.start" && got["val"] == "$r.input[$r.start:$r.pos]" && got["typ"] == "$p0" {
 					ok = true
 				}
 			}
@@ -385,7 +390,17 @@ func runC03(c *an.Ctx) {
 	if f := c.Fn("C03.space", "isSpace"); f != nil {
 		got := map[rune]bool{}
 		shape := true
+		var calls []string
 		an.InspectOwn(f, func(n ast.Node) bool {
+			// the set is spelled out: a call that decides membership (unicode.IsSpace, a table lookup) adds characters
+			// this rule cannot enumerate — and the property names exactly four
+			if call, isCall := n.(*ast.CallExpr); isCall {
+				if tv, has := info.Types[an.Unparen(call.Fun)]; !has || !tv.IsType() {
+					shape = false
+					calls = append(calls, "membership decided by "+an.Str(call.Fun))
+				}
+				return true
+			}
 			b, ok := n.(*ast.BinaryExpr)
 			if !ok {
 				return true
@@ -416,6 +431,7 @@ func runC03(c *an.Ctx) {
 				diff = append(diff, fmt.Sprintf("extra %q", r))
 			}
 		}
+		diff = append(diff, calls...)
 		sort.Strings(diff)
 		c.Check(shape && len(diff) == 0 && len(f.Body.List) == 1, "C03.space", "isSpace", f.Pos(), "the trim predicate is exactly {space, tab, CR, LF}", fmt.Sprintf("isSpace is not exactly the set {space, tab, CR, LF}: %v", diff))
 	}
